@@ -148,6 +148,10 @@ class Gen:
         base = r.randint(int(lo * 100), int(hi * 100)) / 100.0
         return min(hi, max(lo, base + r.choice([-1, 1]) * r.choice([1e-9, 4.9e-7, 5e-5, 9.99999e-3])))
 
+    def maybe_int(self, x, p=0.12):
+        """value class: a Python int where a float is usual (the writer's decimal_to_str prints it without a fraction)"""
+        return int(round(x)) if self.flip(p) and abs(x) >= 1 else x
+
     def huge(self):
         """magnitude >= 1e16 (repr in exponent notation with a positive exponent) or a 17-significant-digit value"""
         r = self.r
@@ -194,7 +198,7 @@ class Gen:
 
     # ------------------------------------------------------------------ shapes
     def rect(self, centred=False):
-        s = {"k": "rect", "l": self.pos_len(), "w": self.pos_len()}
+        s = {"k": "rect", "l": self.maybe_int(self.pos_len()), "w": self.maybe_int(self.pos_len())}
         if centred:
             s["c"], s["o"] = [0.0, 0.0], 0.0
         else:
@@ -407,7 +411,7 @@ class Gen:
         sign_members = [m.name for m in TrafficSignIDCountries[country] if m.value in X["trafficSignID"]]
 
         spec = {"precision": precision if precision is not None else r.randint(1, 12)}
-        spec["dt"] = r.choice([0.1, 0.04, 0.2, 1.0, 0.05])
+        spec["dt"] = r.choice([0.1, 0.04, 0.2, 1.0, 0.05, 1])
         spec["scenario_id"] = {"cooperative": self.flip(0.15), "country": country,
                                "map_name": r.choice(["Tst", "Muc", "Lohmar", "A9"]), "map_id": r.randint(1, 99),
                                "configuration_id": r.randint(1, 9), "obstacle_behavior": r.choice(["T", "S", "I"]),
@@ -583,10 +587,11 @@ class Gen:
         mode = self.every("location", ["default", "plain", "geo", "env", "both"])
         if mode == "default":
             return {"geo_name_id": -999, "lat": 999.0, "lon": 999.0, "geo": None, "env": None}
-        loc = {"geo_name_id": r.choice([-999, 2867714, r.randint(1, 10 ** 7)]), "lat": self.real(-90, 90), "lon": self.real(-180, 180),
+        loc = {"geo_name_id": r.choice([-999, 2867714, r.randint(1, 10 ** 7)]), "lat": self.maybe_int(self.real(-90, 90), 0.2),
+               "lon": self.maybe_int(self.real(-180, 180), 0.2),
                "geo": None, "env": None}
         if mode in ("geo", "both"):
-            loc["geo"] = {"ref": r.choice(["+proj=utm +zone=32 +ellps=WGS84", "EPSG:4326"]), "x": self.real(), "y": self.real(),
+            loc["geo"] = {"ref": r.choice(["+proj=utm +zone=32 +ellps=WGS84", "EPSG:4326"]), "x": self.maybe_int(self.real(), 0.2), "y": self.real(),
                           "rot": self.bounded(-3.0, 3.0), "scaling": self.pos_len()}
         if mode in ("env", "both"):
             loc["env"] = {"h": r.randint(0, 23), "m": r.randint(0, 59),
